@@ -1,7 +1,9 @@
 (* Correspondence cases for C07.  A case is a timed history recorded by the
    harness against one real RouterHandler: the client operations with their
    begin/end stamps, and every message each connection received with its
-   stamp.
+   stamp.  Connections may connect late ([DOpen]) and clients that have
+   stopped reading may leave with deliveries pending (a [DPause] that is
+   followed by the connection's ODisc without a [DResume]).
 
    model agrees  (deterministic layer only): there is a schedule of the model
      (Router.v) that is consistent with the real-time facts of the history
@@ -18,9 +20,16 @@ Inductive dop :=
 | DO (c : nat) (o : op) (b : Z) (d : option Z)
 | DPause (c : nat) (b : Z)        (* the client stops reading *)
 | DResume (c : nat) (b : Z)       (* the client reads again *)
-| DCut (c : nat) (o : op) (b : Z) (d : option Z).
+| DCut (c : nat) (o : op) (b : Z) (d : option Z)
     (* the client sent o and disconnected without waiting for the reply (the disconnect itself
        follows as a DO .. ODisc); d: the reply arrived all the same *)
+| DOpen (c : nat) (b : Z).
+    (* connection c connects only now (its ServeNostr is started on the shared router): before
+       this point it does not exist.  In the model a connection is an index with its own fresh
+       state ([c_init]: own empty queue, no registry entry) until its first operation, so
+       connecting is no step of the model; in the specification nothing is owed to or justified
+       for a connection before its own first REQ, so the oracle needs no clause for it either.
+       What the late connection RECEIVES is judged by both like everybody else's output. *)
 
 Inductive case :=
 | CHist (det : bool) (buf : Z) (ops : list dop) (outs : list (list (xmsg * Z))) (drained : list bool)
@@ -170,6 +179,7 @@ Fixpoint sim (conns : list nat) (ops : list dop) (paused : list nat) (s : rstate
   | [] => Some s
   | DPause c _ :: ops' => sim conns ops' (c :: paused) s
   | DResume c _ :: ops' => sim conns ops' (remove_conn c paused) s
+  | DOpen c _ :: ops' => sim conns ops' paused s
   | DO c o b d :: ops' =>
       match d, wants_reply_op o with
       | None, true => None      (* the model always answers *)
